@@ -14,6 +14,7 @@ import (
 
 	"github.com/btcsuite/btcd/btcec/v2"
 	"github.com/btcsuite/btcd/btcutil/v2"
+	"github.com/btcsuite/btcd/btcutil/v2/txsort"
 	"github.com/btcsuite/btcd/chainhash/v2"
 	"github.com/btcsuite/btcd/wire/v2"
 	"github.com/lightningnetwork/lnd/channeldb"
@@ -302,6 +303,9 @@ func New(t TB, p Params) *Sim {
 	if err != nil {
 		t.Fatalf("CreateCommitmentTxns: %v", err)
 	}
+	// The funding flow sorts both transactions (BIP 69).
+	txsort.InPlaceSort(txA)
+	txsort.InPlaceSort(txB)
 	obf := lnwallet.DeriveStateHintObfuscator(
 		cfgs[op].PaymentBasePoint.PubKey,
 		cfgs[1-op].PaymentBasePoint.PubKey,
